@@ -22,6 +22,8 @@ pub struct Stats {
     pub merge_matched: bool,
     pub merge_created: bool,
     pub rows_in_updates: usize,
+    /// largest number of rows any update clause of the statement processed
+    pub max_rows: usize,
     /// last value written per (entity, key) in this statement (None = removed)
     pub wlog: BTreeMap<(String, String), Option<crate::pv::PV>>,
     /// the result depends on the order in which rows or items are applied, or on the
@@ -341,6 +343,7 @@ pub fn apply_statement(model: &mut Model, clauses: &[Clause], params: &BTreeMap<
             Clause::Create { pats } => {
                 seen_update = true;
                 st.rows_in_updates += rows.len();
+                st.max_rows = st.max_rows.max(rows.len());
                 if rows.len() > 300 {
                     return Err(EvalErr::Budget);
                 }
@@ -357,6 +360,7 @@ pub fn apply_statement(model: &mut Model, clauses: &[Clause], params: &BTreeMap<
             Clause::Merge { pat, on_create, on_match } => {
                 seen_update = true;
                 st.rows_in_updates += rows.len();
+                st.max_rows = st.max_rows.max(rows.len());
                 if rows.len() > 300 {
                     return Err(EvalErr::Budget);
                 }
@@ -392,6 +396,7 @@ pub fn apply_statement(model: &mut Model, clauses: &[Clause], params: &BTreeMap<
             Clause::Set { items } => {
                 seen_update = true;
                 st.rows_in_updates += rows.len();
+                st.max_rows = st.max_rows.max(rows.len());
                 if rows.len() > 300 {
                     return Err(EvalErr::Budget);
                 }
@@ -402,6 +407,7 @@ pub fn apply_statement(model: &mut Model, clauses: &[Clause], params: &BTreeMap<
             Clause::Remove { items } => {
                 seen_update = true;
                 st.rows_in_updates += rows.len();
+                st.max_rows = st.max_rows.max(rows.len());
                 if rows.len() > 300 {
                     return Err(EvalErr::Budget);
                 }
@@ -429,6 +435,7 @@ pub fn apply_statement(model: &mut Model, clauses: &[Clause], params: &BTreeMap<
             Clause::Delete { detach, exprs } => {
                 seen_update = true;
                 st.rows_in_updates += rows.len();
+                st.max_rows = st.max_rows.max(rows.len());
                 if rows.len() > 300 {
                     return Err(EvalErr::Budget);
                 }
@@ -499,7 +506,8 @@ pub fn apply_statement(model: &mut Model, clauses: &[Clause], params: &BTreeMap<
     if st.needs_own_writes {
         return unsup("statement-internal visibility: SET = map after a write of the same entity");
     }
-    if st.order_dependent {
+    // with at most one row per update clause everything happens in clause / item order
+    if st.order_dependent && st.max_rows > 1 {
         return Err(EvalErr::Nondet("the statement's result depends on the order of rows/items or on seeing its own writes".into()));
     }
     *model = m;
